@@ -1060,7 +1060,7 @@ def tag_of(case, obs):
 
 
 def run(ck: common.Check):
-    ck.prove(["GeffProps.C11"])
+    ck.prove(["GeffProps.C11", "GeffProps.C11Gen"])
     ck.rule = ("cases = corpus + (ser/de) every sequence of 1..3 arrays of one rank 0..3 with every extent 0..2, dtype "
                "(12 numeric + str) and missing pattern rotating [rank-3 triples sampled 1/2 in quick] + invalid "
                "(mixed rank/dtype/non-array) sequences + adversarial offset tables for the decoder + (normalise) every "
